@@ -123,9 +123,20 @@ Definition spec_ok (c : case) : bool :=
 
 (* 1: `[k]` with k >= number of rows prints nothing and exits 0
    2: `[-k]` (any non-digit parameter) is taken as a column name by the table indexer
-   3: `[[/k]]` on rows that are all arrays ([][]string) is rejected for every k *)
+   3: `[[/k]]` on rows that are all arrays ([][]string) is rejected for every k
+   and one of the json marshaller:
+   4: `[[/k]]` on a json array whose element k is null is an error ("no data returned") *)
 Definition classify (c : case) : N :=
   match c_fmt c, c_doc c, c_params c with
+  | FJson, JArr xs, [p] =>
+      match c_op c, elem_single_int p with
+      | OpElem, Some k =>
+          match spec_pick xs k with
+          | Some JNull => if (o_class (c_obs c) =? 1)%N then 4%N else 0%N
+          | _ => 0%N
+          end
+      | _, _ => 0%N
+      end
   | FJsonl, JArr rows, [p] =>
       if no_panic (c_obs c) then
         match c_op c with
@@ -133,7 +144,7 @@ Definition classify (c : case) : N :=
             match atoi p with
             | Some k =>
                 if all_digits p && (zlen rows <=? k) && (o_class (c_obs c) =? 0)%N then 1%N
-                else if negb (all_digits p) && (k <? 0) && (- zlen rows <=? k) then 2%N
+                else if negb (all_digits p) && (k <? 0) then 2%N
                 else 0%N
             | None => 0%N
             end
